@@ -982,6 +982,37 @@ def names(F, R):
         if not ok:
             R.find('C03.names', f, 'id-state', '%s<%s>: the id used is that of %s, the %s delivered is that of %s' % (f.cls, Facts.short(st, 50), sorted(Facts.short(x, 40) for x in idstates), 'name' if tool else 'state object', sorted(Facts.short(x, 40) for x in delivered)), instance=Facts.short(st, 120))
 
+@rule('byid')
+def byid(F, R):
+    """C03.by-id (back / back11): get_state_by_id answers from the search over the machine's whole state list on every path (no bound
+    derived from anything else - e.g. the number of table rows - decides before the search), and returns the search result."""
+    from rules_core import backend_of
+    from rules_struct import tokens_on_paths
+    from rules_order import dependency_closure
+    M = Model(F)
+    for f in F.funcs:
+        if backend_of(f) not in ('back', 'back11') or f.n != 'get_state_by_id' or f.cls != 'state_machine' or not f.blocks: continue
+        R.seen(f); R.anchor('get-state-by-id:' + backend_of(f))
+        def cl(i, n):
+            if n['k'] == 'call' and n.get('n') == 'for_each' and any(f.nodes[d] and f.nodes[d]['k'] == 'ctor' and f.nodes[d].get('pc') == 'get_state_id_helper' for a in n.get('args', []) for d in dependency_closure(f, a)): return 'S'
+            if n['k'] == 'call' and n.get('n') == 'get_state_by_id': return 'D'       # delegation to the other overload
+            return None
+        seqs = tokens_on_paths(f, cl)
+        ok = bool(seqs) and all(s in (['S'], ['D']) for s in seqs)
+        # the sequence searched is the machine's state list
+        full = True
+        m = M.machine_of(F.class_type(f))
+        for i, n in f.calls():
+            if n.get('n') == 'for_each' and n.get('ta') and m is not None:
+                t0 = n['ta'][0]
+                lst = type_list(F.strs[t0['t']]) if isinstance(t0, dict) and 't' in t0 else None
+                want = M.states(m.fe)
+                if lst is not None and want and M.rows(m.fe) is not None:
+                    if not set(strip_cvref(x) for x in want) <= set(strip_cvref(x) for x in lst): full = False
+        R.ob('C03.by-id', ok and full, {'func': f.q, 'paths': seqs})
+        if not (ok and full):
+            R.find('C03.by-id', f, 'search', 'get_state_by_id must search the whole state list on every path and return what it found (paths: %s%s): an id that current_state() reports would otherwise yield no state' % (seqs, '' if full else '; the searched sequence does not contain every state of the machine'))
+
 @rule('owners')
 def owners(F, R):
     """C09.owner: every back-end transition generated from a front-end row lives in the right cell and enters the right object:
@@ -1161,6 +1192,54 @@ def config(F, R):
             want_order = ['do_post_msg_queue_helper', 'do_handle_deferred'] if first_msgq else ['do_handle_deferred', 'do_post_msg_queue_helper']
             R.seen(f); R.anchor('prio-variant:%s:%s' % (be, 'msgq-first' if first_msgq else 'deferred-first'))
             ok = order == want_order
+            # which queue is drained for which event source: the queue an event was taken from is not drained from inside its own
+            # dispatch; in the message-queue-first variant the deferred queue additionally waits for events taken from the message queue
+            # (and vice versa in the default variant)
+            from rules_struct import cond_facts
+            MQ = DQ = None
+            for n in f.nodes:
+                if n and n['k'] == 'ref' and n.get('dk') == 'enum':
+                    if n['n'] == 'EVENT_SOURCE_MSG_QUEUE': MQ = n.get('v')
+                    if n['n'] == 'EVENT_SOURCE_DEFERRED': DQ = n.get('v')
+            def ev(nid, src):
+                n = f.nodes[nid] if nid else None
+                if n is None: return None
+                k = n['k']
+                if k in ('icast', 'cast', 'paren'): return ev(n['e'], src)
+                if k == 'lit': return int(n['v']) if isinstance(n.get('v'), (int, bool)) else None
+                if k == 'ref': return n['v'] if n.get('dk') == 'enum' and 'v' in n else (src if n.get('dk') == 'param' and n['n'] == 'source' else None)
+                if k == 'un' and n['op'] == '!':
+                    x = ev(n['e'], src); return None if x is None else int(not x)
+                if k in ('bin', 'call') and n.get('op') in ('&', '|', '==', '!=', '&&', '||'):
+                    ops = [n['lhs'], n['rhs']] if k == 'bin' else list(n.get('args', []))
+                    if len(ops) != 2: return None
+                    a, b = ev(ops[0], src), ev(ops[1], src)
+                    if a is None or b is None: return None
+                    return {'&': a & b, '|': a | b, '==': int(a == b), '!=': int(a != b), '&&': int(bool(a) and bool(b)), '||': int(bool(a) or bool(b))}[n['op']]
+                return None
+            if MQ is not None and DQ is not None:
+                done_ = False
+                for p in f.paths(edge_bound=1):
+                    if f.aborts(p) or done_: continue
+                    conds = []
+                    for bi, b in enumerate(p[:-1]):
+                        for c, t in cond_facts(f, f.bmap[b], p[bi + 1]):
+                            cid = next((k for k, x in enumerate(f.nodes) if x is c), None)
+                            if cid is not None: conds.append((cid, t))
+                    did = [f.nodes[i].get('n') for i in f.path_nodes(p) if f.nodes[i] and f.nodes[i]['k'] == 'call' and f.nodes[i].get('n') in ('do_post_msg_queue_helper', 'do_handle_deferred')]
+                    # every event source consistent with the branch outcomes of this path
+                    for msgq in (0, 1):
+                        for defq in (0, 1):
+                            src = (MQ if msgq else 0) | (DQ if defq else 0)
+                            vals = [(ev(cid, src), t) for cid, t in conds]
+                            if any(v is None for v, t in vals) or any(bool(v) != t for v, t in vals): continue
+                            if first_msgq: exp_m, exp_d = (not msgq), (not msgq and not defq)
+                            else: exp_d, exp_m = (not defq), (not defq and not msgq)
+                            okp = (('do_post_msg_queue_helper' in did) == exp_m) and (('do_handle_deferred' in did) == exp_d)
+                            R.ob('C12.config', okp, {'func': f.q, 'from_message_queue': bool(msgq), 'from_deferred_queue': bool(defq), 'drains': did})
+                            if not okp and not done_:
+                                done_ = True
+                                R.find('C12.config', f, 'prio-sources', 'in the %s variant an event taken from %s drains %s afterwards; required: message queue %s, deferred queue %s (the queue an event came from is not drained from inside its own dispatch, the other one is)' % ('message-queue-first' if first_msgq else 'default', ' and '.join(x for x, y in (('the message queue', msgq), ('the deferred queue', defq)) if y) or 'neither queue', did or 'nothing', exp_m, exp_d))
             R.ob('C12.config', ok, {'func': f.q, 'order': order})
             if not ok: R.find('C12.config', f, 'prio-order', 'the %s variant of do_handle_prio_msg_queue_deferred_queue runs %s, required %s' % ('event_queue_before_deferred_queue' if first_msgq else 'default', order, want_order))
         if be in ('back', 'back11'):
@@ -1480,3 +1559,115 @@ def cvkeys(F, R):
         if not ok:
             loc = list(vs.values())[0][2]
             R.find('C18.cv-key', (loc.split(':')[0], key[0]), 'cv:' + key[0].split('::')[-1], '%s gives different answers for argument lists that differ only in cv / reference qualifiers: %s' % (key[0], ['%s -> %s' % (Facts.short(k[-1], 40), Facts.short(str(v[0] if v[0] is not None else v[1]), 40)) for k, v in vs.items()]), where=loc, instance=' / '.join(Facts.short(x, 60) for x in key[1]))
+
+
+@rule('defervisit')
+def defervisit(F, R):
+    """C05.any-defers (backmp11, both compile policies): "the event is deferred if ANY active state defers it": the deferral visitors
+    OR each state's answer into their result (never overwrite it with the answer of the last visited state)."""
+    from rules_rtc import acc_writes
+    for f in F.funcs:
+        if not f.blocks or f.n != 'operator()' or f.cls != 'is_event_deferred_visitor' or not f.file.startswith('boost/msm/backmp11/'): continue
+        R.seen(f); R.anchor('defer-visitor:' + ('fct' if f.file.endswith('favor_compile_time.hpp') else 'frs'))
+        ws = acc_writes(f, 'm_result')
+        ok = bool(ws) and all(w[1] for w in ws)
+        R.ob('C05.any-defers', ok, {'func': f.q, 'writes': [w[2] for w in ws]})
+        if not ok: R.find('C05.any-defers', f, 'overwrite', 'the deferral visitor must OR every visited state\'s answer into its result; found %s: with several deferring states active the answer is that of the last one visited' % [w[2] for w in ws])
+
+@rule('internalgate')
+def internalgate(F, R):
+    """C18.internal-gate (back / back11): the machine's own internal_transition_table is consulted for an event exactly when one of
+    its rows is a candidate for that event - trigger equal to the event's type, a public base class of it, or a Kleene type.  The gate
+    is the tag process_fsm_internal_table<Event>::process passes to do_process; the oracle is computed from the front-end's table."""
+    from rules_core import backend_of
+    M = Model(F)
+    for f in F.funcs:
+        be = backend_of(f)
+        if be not in ('back', 'back11') or f.cls != 'process_fsm_internal_table' or f.n != 'process' or not f.blocks: continue
+        ca = f.cls_args('process_fsm_internal_table') or []
+        if not ca: continue
+        ev = strip_cvref(str(ca[0]))
+        mt = None
+        for c in reversed([c for c in f.d['ctx'] if 'c' in c]):
+            m = M.machine_of(F.strs[c['t']])
+            if m: mt = m; break
+        if mt is None: continue
+        rows = M.rows(mt.fe, 'internal_transition_table')
+        if rows is None: continue
+        tag = None
+        for i, n in f.calls():
+            if n.get('n') != 'do_process': continue
+            for a in n.get('args', []):
+                x = f.nodes[a]
+                t = strip_cvref(F.strs[x['t']]) if x and 't' in x else ''
+                h, ta, r = parse_type(t)
+                if h in ('mpl_::bool_', 'boost::mpl::bool_', 'std::integral_constant') and ta: tag = ta[-1] in ('true', '1')
+                elif t.endswith('::is_event_processable') or 'not_<' in t or 'has_key<' in t:
+                    # the tag type is a metafunction result: read its value from the callee's parameter type
+                    g = F.bykey.get(n.get('fk'))
+                    if g is not None:
+                        pt = g.param_types()
+                        if pt: tag = 'true' in pt[-1] and 'false' not in pt[-1]
+        if tag is None:
+            # fall back: which do_process overload is called (its last parameter is mpl::true_ / mpl::false_)
+            for i, n in f.calls():
+                if n.get('n') == 'do_process':
+                    g = F.bykey.get(n.get('fk'))
+                    if g is not None and g.param_types():
+                        last = g.param_types()[-1]
+                        tag = ('bool_<true>' in last) or ('true_' in last and 'false_' not in last)
+        if tag is None: continue
+        want = any(r['evt'] and M.event_matches(r['evt'], ev, 'frs') for r in rows)
+        R.seen(f); R.anchor('internal-gate-oracle:' + be)
+        if want: R.anchor('internal-gate-open:' + be)
+        ok = tag == want
+        R.ob('C18.internal-gate', ok, {'machine': Facts.short(mt.fe, 50), 'event': Facts.short(ev, 40), 'table_has_candidate': want, 'table_consulted': tag})
+        if not ok:
+            R.find('C18.internal-gate', f, 'gate', 'machine %s: its internal_transition_table %s a candidate row for event %s (type, base class or Kleene trigger) but the table is %s' % (Facts.short(mt.fe, 50), 'has' if want else 'has no', Facts.short(ev, 40), 'consulted' if tag else 'skipped'), instance='%s / %s' % (Facts.short(mt.fe, 100), Facts.short(ev, 60)))
+
+@rule('deferslice')
+def deferslice(F, R):
+    """C05.defer-slice: a Defer action stores a copy of the event object IT RECEIVES.  A row's action receives the event converted to
+    the row's trigger type, so when a Defer row is reached with an event whose type is a proper derived class of its trigger
+    (base-class trigger, run-time-speed policies) the stored copy is the base part only: on re-offer the derived-class rows no longer
+    match and the payload of the derived part is gone.  Reported per back-end at the Defer functor; listed as a known finding."""
+    from rules_core import backend_of
+    M = Model(F)
+    def row_defers(tr):
+        comps = components(tr)
+        if not comps or not comps[-1][1]: return None
+        row = comps[-1][1][0]
+        rec = F.rec_by_type(row)
+        act = F.strs[rec['tds']['Action']] if rec and 'Action' in rec['tds'] else ''
+        return ('boost::msm::front::Defer' in act), row
+    hits = {}
+    for f in F.funcs:
+        be = backend_of(f)
+        if be is None or not f.blocks: continue
+        tr = ev = None
+        if be in ('back', 'back11') and f.cls == 'call_with_base_event' and f.n == 'execute':
+            ca = f.cls_args('call_with_base_event') or []; da = f.cls_args('dispatch_table') or []
+            if ca and len(da) >= 3: tr, ev = strip_cvref(str(ca[0])), strip_cvref(str(da[2]))
+        ctx = f.d['ctx']
+        if be == 'backmp11' and f.n == 'operator()' and len(ctx) >= 3 and ctx[-2].get('f') == 'dispatch' and ctx[-3].get('c') == 'dispatch_impl' and f.param_types():
+            tr = strip_cvref(f.param_types()[0])
+            for c in ctx:
+                if c.get('c') == 'dispatch_table' and c.get('a') and len(c['a']) >= 2:
+                    a1 = c['a'][1]; ev = strip_cvref(F.strs[a1['t']]) if isinstance(a1, dict) and 't' in a1 else None
+        if not tr or not ev: continue
+        rd = row_defers(tr)
+        if not rd or not rd[0]: continue
+        rec = F.rec_by_type(tr)
+        te = strip_cvref(F.strs[rec['tds']['transition_event']]) if rec and 'transition_event' in rec['tds'] else None
+        R.anchor('defer-row-dispatch:' + be)
+        if te is None or te == ev or M.is_kleene(te): continue
+        if te in M.bases_of(ev): hits.setdefault(be, []).append((ev, te, rd[1]))
+    if not hits: return
+    # report at the Defer functor (one site per back-end family)
+    for f in F.funcs:
+        if f.q == 'boost::msm::front::Defer::operator()' and f.blocks:
+            for be, lst in sorted(hits.items()):
+                ev, te, row = lst[0]
+                R.ob('C05.defer-slice', False, {'back_end': be, 'event': Facts.short(ev, 40), 'trigger': Facts.short(te, 40)})
+                R.find('C05.defer-slice', f, 'base-trigger:' + be, 'a Defer row with trigger %s is reached with the derived event %s (%s): Defer stores a copy of the %s part only, the re-offered event no longer matches rows on %s and its payload is lost' % (Facts.short(te, 40), Facts.short(ev, 40), be, Facts.short(te, 40), Facts.short(ev, 40)), instance='%s / %s' % (Facts.short(row, 120), Facts.short(ev, 40)))
+            break
